@@ -106,7 +106,14 @@ impl<'a> G<'a> {
         let nd = self.defs.len();
         match self.rng.weighted(&[6, 4, 2, 2]) {
             0 => ArgKind::Val(if self.rng.chance(1, 12) { DTy::Unit } else { self.dty(nd, 0) }),
-            1 => ArgKind::Ref(self.dty(nd, 0)),
+            1 => {
+                // `&Box<T>` is rejected by the macro ("does not support reference to Box")
+                let mut t = self.dty(nd, 0);
+                while let DTy::Boxed(inner) = t {
+                    t = *inner;
+                }
+                ArgKind::Ref(t)
+            }
             2 => ArgKind::StrRef,
             _ => ArgKind::Slice(match self.rng.weighted(&[3, 2, 2, if nd > 0 { 3 } else { 0 }]) {
                 0 => DTy::Prim(Prim::U32),
